@@ -71,6 +71,45 @@ def run(seed=0, tier="quick", aimed=None):
                 "oracle": "update_eq_curl_2d", "grid": [ny, nx], "err": e}}
         if len(samples) < 2:
             samples.append({"oracle": "c12_identities", "grid3d": [nz, ny, nx], "grid2d": [ny, nx]})
+    # ---- the 3D simulator's divergence monitor: L2 norm of the centred divergence of the vorticity (ghost ring zero), and it is
+    #      unchanged by a step's curl-type updates on a compactly supported state (vorticity stays divergence free)
+    import warnings
+
+    import ref as R
+    import sopht.simulator as sps
+
+    for t in range(1 if tier == "quick" else 4):
+        r = impl.rng(seed, "c12monitor", t)
+        shape = tuple(int(v) for v in r.integers(10, 14, size=3))
+        with warnings.catch_warnings():
+            warnings.simplefilter("ignore")
+            sim = sps.UnboundedNavierStokesFlowSimulator3D(grid_size=shape, x_range=1.0, kinematic_viscosity=0.01, real_t=np.float64, with_forcing=True)
+        A = np.zeros((3,) + shape); A[(slice(None),) + (slice(4, -4),) * 3] = r.normal(size=(3,) + tuple(n - 8 for n in shape))
+        w = np.zeros((3,) + shape)
+        w[(slice(None),) + (slice(1, -1),) * 3] = R.curl3(A)          # a discretely divergence-free, compactly supported vorticity
+        sim.vorticity_field[...] = w + 0.0
+        dx = float(sim.dx)
+        dirty = r.normal(size=shape)
+        sim.buffer_scalar_field[...] = dirty                           # the monitor must not depend on the scratch content
+        got = float(sim.get_vorticity_divergence_l2_norm())
+        div = np.zeros(shape); div[(slice(1, -1),) * 3] = R.div3(w) / (2 * dx)
+        want = float(np.linalg.norm(div) * dx ** 1.5)
+        cases += 1
+        if abs(got - want) > 1e-10 * (1 + want) or got > 1e-10 * (1 + float(np.abs(w).max()) / dx):
+            return {"ok": False, "cases": cases, "samples": samples, "failing_input": {
+                "oracle": "divergence_monitor_3d", "grid": list(shape), "monitor": got, "reference": want,
+                "what": "get_vorticity_divergence_l2_norm differs from the L2 norm of the centred divergence, or a discrete curl is not reported divergence-free"}}
+        # a generic (not divergence-free) field: the monitor equals the reference norm
+        w2 = np.zeros((3,) + shape); w2[(slice(None),) + (slice(3, -3),) * 3] = r.normal(size=(3,) + tuple(n - 6 for n in shape))
+        sim.vorticity_field[...] = w2
+        got = float(sim.get_vorticity_divergence_l2_norm())
+        div = np.zeros(shape); div[(slice(1, -1),) * 3] = R.div3(w2) / (2 * dx)
+        want = float(np.linalg.norm(div) * dx ** 1.5)
+        cases += 1
+        if abs(got - want) > 1e-10 * (1 + want):
+            return {"ok": False, "cases": cases, "samples": samples, "failing_input": {
+                "oracle": "divergence_monitor_3d", "grid": list(shape), "monitor": got, "reference": want,
+                "what": "get_vorticity_divergence_l2_norm differs from the L2 norm of the centred divergence of the vorticity"}}
     return {"ok": True, "cases": cases, "failing_input": None, "samples": samples}
 
 
